@@ -85,6 +85,11 @@ def sop_coq(o):
                                                   L.string(o['name2']), L.nat(o['depth']))
     if k == 'sout':
         return 'SOut'
+    if k == 'concatrow':
+        return '(SConcatRow %s %s %s)' % (t, L.nat(o['t2']), L.z(o['ni']))
+    if k == 'concatdict':
+        return '(SConcatDict %s %s %s)' % (t, L.nat(o['n']), L.lst(
+            '(%s, %s)' % (L.string(nm), L.lst(pv(x) for x in vs)) for nm, vs in o['cols']))
     return '(SPlain %s)' % world.op_coq(o)
 
 
@@ -183,9 +188,38 @@ class SRunner(world.Runner):
         except Exception as e:      # noqa: BLE001
             problems.append('column_names raised %r' % e)
 
+    def apply_concat(self, o):
+        """a << Row and a << dict: the intermediate table (the row's one-row slice / what _fromdict builds) becomes a pool
+        member of its own (built independently here), so that the pools of implementation and spec stay aligned."""
+        P = self.pool
+        from datamatrix import DataMatrix
+        with warnings.catch_warnings():
+            warnings.simplefilter('ignore')
+            a = P[o['t']]
+            if o['op'] == 'concatrow':
+                src = P[o['t2']]
+                ni = o['ni']
+                operand = src[o['i']]                 # a Row (o['i'] may be negative; ni is its normalised position)
+                tmp = src[ni:ni + 1]
+            else:
+                d = {nm: [pyobs.dec(x) for x in vs] for nm, vs in o['cols']}
+                operand = d
+                tmp = DataMatrix()._fromdict({nm: list(v) for nm, v in d.items()})
+            P.append(tmp)
+            try:
+                res = a << operand
+            except Exception as e:          # noqa: BLE001
+                return '(Err %s)' % pyobs.exn_name(e), False
+            if not isinstance(res, DataMatrix):
+                return '(Err OtherError)', False
+            P.append(res)
+        return 'OkNew', True
+
     # ---------------------------------------------------------------- apply
     def apply_s(self, o, seed=0):
         k = o['op']
+        if k in ('concatrow', 'concatdict'):
+            return self.apply_concat(o)
         if k not in ('snew', 'sset', 'ssetsample', 'ssetdepth', 'srename', 'sdelcol', 'scopycol', 'sout'):
             return self.apply(o, seed=seed)
         P = self.pool
@@ -421,6 +455,32 @@ def gen_sop(rng, r, p_series=0.35, bad_rate=0.06, max_rows=9):
     return None
 
 
+def gen_concat_op(rng, r, max_pool=9):
+    """a << Row / a << dict (each adds two pool members)"""
+    P = r.pool
+    if not P or len(P) + 2 > max_pool:
+        return None
+    ti = rng.randrange(len(P))
+    if rng.random() < 0.55:
+        cands = [j for j, q in enumerate(P) if len(q) > 0]
+        if not cands:
+            return None
+        t2 = rng.choice(cands)
+        n2 = len(P[t2])
+        ni = rng.randrange(n2)
+        i = ni - n2 if rng.random() < 0.3 else ni
+        return {'op': 'concatrow', 't': ti, 't2': t2, 'i': i, 'ni': ni}
+    names = rng.sample(histgen.NAMES + ['e'], rng.randint(1, 3))
+    n = rng.randint(0, 3)
+    cols = []
+    for nm in names:
+        m = n if rng.random() < 0.7 else rng.randint(0, n)
+        cols.append([nm, [pyobs.enc(histgen.pick_value(rng, 'KMixed', 0)) for _ in range(m)]])
+    if cols and not any(len(vs) == n for _nm, vs in cols):
+        cols[0][1] = [pyobs.enc(histgen.pick_value(rng, 'KMixed', 0)) for _ in range(n)]
+    return {'op': 'concatdict', 't': ti, 'n': n, 'cols': cols}
+
+
 def gen_shistory(rng, nsteps, weights=None, seed=0, p_series=0.35, **kw):
     weights = dict(weights or histgen.DEFAULT_WEIGHTS)
     r = SRunner()
@@ -443,6 +503,8 @@ def gen_shistory(rng, nsteps, weights=None, seed=0, p_series=0.35, **kw):
     while len(ops_list) < nsteps:
         o = gen_sop(rng, r, **{k: v for k, v in kw.items() if k in ('bad_rate', 'max_rows')}) \
             if rng.random() < p_series else None
+        if o is None and weights.get('concat', 0) and rng.random() < 0.04 + 0.004 * weights.get('concat', 0):
+            o = gen_concat_op(rng, r, max_pool=kw.get('max_pool', 7) + 2)
         if o is None:
             o = histgen.gen_op(rng, r, weights, **kw)
         if o['op'] == 'merge' and merge_depth_mismatch(r.pool, o):
